@@ -244,4 +244,130 @@ theorem isForMe_agrees (h : Half) (m : CanMsg) :
   · exact is_for_me_mixed_11bits_agrees h hm m
   · exact is_for_me_mixed_29bits_agrees h hm m
 
+/-! ### the hypotheses of item 2 are what the constructor guarantees
+
+  `Address.__init__` calls `_get_tx_arbitration_id` only when `not self._rx_only` and `_get_rx_arbitration_id` only when
+  `not self._tx_only`, after `validate`.  For every object the model's constructor returns, the hypotheses of the four
+  theorems above hold under those guards, so the two getters agree with the model on every constructed object. -/
+
+theorem mask2816_mod (x : Nat) : mask2816 x % 65536 = 0 := by unfold mask2816; omega
+
+theorem optBase_mod (o : Option Nat) (d : Nat) (hd : d % 65536 = 0) : ((o.map mask2816).getD d) % 65536 = 0 := by
+  cases o <;> simp [hd, mask2816_mod]
+
+theorem optNat_byte (v : PyVal) (hv : byteOk v = true) (hn : v.isNone = false) : ∃ n, optNat v = some n ∧ n ≤ 255 := by
+  cases v <;> simp_all [byteOk, optNat, PyVal.isNone, PyVal.isInt, PyVal.intVal]
+  all_goals exact of_decide_eq_true hv.2
+
+theorem mkAddress_fixed_guarantees (a : AddrArgs) (h : Half) (hk : mkAddress a = .ok h)
+    (hm : h.mode = .nf29 ∨ h.mode = .m29) :
+    ∃ ta sa, h.ta = some ta ∧ h.sa = some sa ∧ ta ≤ 255 ∧ sa ≤ 255 ∧ h.physId % 65536 = 0 ∧ h.funcId % 65536 = 0 := by
+  unfold mkAddress at hk
+  cases hmo : a.mode with
+  | none => simp [hmo] at hk
+  | some m =>
+    simp only [hmo] at hk
+    split at hk
+    · rename_i hv
+      injection hk with hk
+      subst hk
+      simp only [validateAddr, hmo, Bool.and_eq_true] at hv
+      obtain ⟨⟨⟨⟨⟨⟨_, hp⟩, bta⟩, bsa⟩, _⟩, _⟩, _⟩ := hv
+      simp only at hm
+      rcases hm with rfl | rfl
+      · simp only [presenceOk, Bool.not_eq_true', Bool.or_eq_false_iff] at hp
+        obtain ⟨ta, e1, b1⟩ := optNat_byte _ bta hp.1
+        obtain ⟨sa, e2, b2⟩ := optNat_byte _ bsa hp.2
+        exact ⟨ta, sa, e1, e2, b1, b2, optBase_mod _ _ (by decide), optBase_mod _ _ (by decide)⟩
+      · simp only [presenceOk, Bool.not_eq_true', Bool.or_eq_false_iff] at hp
+        obtain ⟨ta, e1, b1⟩ := optNat_byte _ bta hp.1.1
+        obtain ⟨sa, e2, b2⟩ := optNat_byte _ bsa hp.1.2
+        exact ⟨ta, sa, e1, e2, b1, b2, optBase_mod _ _ (by decide), optBase_mod _ _ (by decide)⟩
+    · simp at hk
+
+theorem mkAddress_plain_guarantees (a : AddrArgs) (h : Half) (hk : mkAddress a = .ok h)
+    (hm : h.mode ≠ .nf29 ∧ h.mode ≠ .m29) :
+    (h.rxOnly = false → ∃ i, h.txid = some i) ∧ (h.txOnly = false → ∃ i, h.rxid = some i) := by
+  unfold mkAddress at hk
+  cases hmo : a.mode with
+  | none => simp [hmo] at hk
+  | some m =>
+    simp only [hmo] at hk
+    split at hk
+    · rename_i hv
+      injection hk with hk
+      subst hk
+      simp only [validateAddr, hmo, Bool.and_eq_true] at hv
+      obtain ⟨⟨⟨⟨⟨⟨_, hp⟩, _⟩, _⟩, _⟩, _⟩, _⟩ := hv
+      simp only at hm ⊢
+      cases m <;> simp_all [presenceOk, optNat] <;> grind
+    · simp at hk
+
+/-- `_get_tx_arbitration_id`, every mode, every constructed object that is not receive-only -/
+theorem p_get_tx_arbitration_id_agrees (a : AddrArgs) (h : Half) (hk : mkAddress a = .ok h) (hr : h.rxOnly = false) (t : Tat) :
+    retOf (tatEnv t (halfEnv h)) Src.Address_p_get_tx_arbitration_id = .ok (pint (h.txId t)) := by
+  by_cases hm : h.mode = .nf29 ∨ h.mode = .m29
+  · obtain ⟨ta, sa, e1, e2, b1, b2, p, f⟩ := mkAddress_fixed_guarantees a h hk hm
+    exact p_get_tx_arbitration_id_fixed_agrees h t hm ta sa e1 e2 b1 b2 (by split <;> assumption)
+  · have hm' : h.mode ≠ .nf29 ∧ h.mode ≠ .m29 := by simpa [not_or] using hm
+    obtain ⟨i, hi⟩ := (mkAddress_plain_guarantees a h hk hm').1 hr
+    exact p_get_tx_arbitration_id_plain_agrees h t hm' i hi
+
+/-- `_get_rx_arbitration_id`, every mode, every constructed object that is not transmit-only -/
+theorem p_get_rx_arbitration_id_agrees (a : AddrArgs) (h : Half) (hk : mkAddress a = .ok h) (ht : h.txOnly = false) (t : Tat) :
+    retOf (tatEnv t (halfEnv h)) Src.Address_p_get_rx_arbitration_id = .ok (pint (h.rxId t)) := by
+  by_cases hm : h.mode = .nf29 ∨ h.mode = .m29
+  · obtain ⟨ta, sa, e1, e2, b1, b2, p, f⟩ := mkAddress_fixed_guarantees a h hk hm
+    exact p_get_rx_arbitration_id_fixed_agrees h t hm ta sa e1 e2 b1 b2 (by split <;> assumption)
+  · have hm' : h.mode ≠ .nf29 ∧ h.mode ≠ .m29 := by simpa [not_or] using hm
+    obtain ⟨i, hi⟩ := (mkAddress_plain_guarantees a h hk hm').2 ht
+    exact p_get_rx_arbitration_id_plain_agrees h t hm' i hi
+
+/-! ### non-vacuity: each hypothesis-carrying theorem applies to an object the constructor builds -/
+
+example : ∃ h, mkAddress { mode := some .n11, txid := .int 0x123, rxid := .int 0x456 } = .ok h ∧
+    (h.mode = .n11 ∨ h.mode = .n29) := ⟨_, rfl, .inl rfl⟩
+example : ∃ h, mkAddress { mode := some .e29, txid := .int 0x123456, rxid := .int 0x654321, ta := .int 0x55, sa := .int 0xAA }
+    = .ok h ∧ (h.mode = .e11 ∨ h.mode = .e29) := ⟨_, rfl, .inr rfl⟩
+example : ∃ h, mkAddress { mode := some .m11, txid := .int 0x123, rxid := .int 0x456, ae := .int 0x99 } = .ok h ∧
+    h.mode = .m11 := ⟨_, rfl, rfl⟩
+example : ∃ h, mkAddress { mode := some .m29, ta := .int 0x55, sa := .int 0xAA, ae := .int 0x99 } = .ok h ∧
+    h.mode = .m29 := ⟨_, rfl, rfl⟩
+/-- plain identifiers (hypotheses of `p_get_{tx,rx}_arbitration_id_plain_agrees`) -/
+example : ∃ h, mkAddress { mode := some .e11, txid := .int 0x123, rxid := .int 0x456, ta := .int 0x55, sa := .int 0xAA } = .ok h ∧
+    (h.mode ≠ .nf29 ∧ h.mode ≠ .m29) ∧ h.txid = some 0x123 ∧ h.rxid = some 0x456 := ⟨_, rfl, by decide, rfl, rfl⟩
+/-- computed identifiers (hypotheses of `p_get_{tx,rx}_arbitration_id_fixed_agrees`), default and user-given bases -/
+example : ∃ h, mkAddress { mode := some .nf29, ta := .int 0x55, sa := .int 0xAA } = .ok h ∧
+    (h.mode = .nf29 ∨ h.mode = .m29) ∧ h.ta = some 0x55 ∧ h.sa = some 0xAA ∧ 0x55 ≤ 255 ∧ 0xAA ≤ 255 ∧
+    (∀ t : Tat, (if t = .physical then h.physId else h.funcId) % 65536 = 0) :=
+  ⟨_, rfl, .inl rfl, rfl, rfl, by decide, by decide, by intro t; cases t <;> decide⟩
+example : ∃ h,
+    mkAddress { mode := some .m29, ta := .int 1, sa := .int 2, ae := .int 3, physId := some 0x1234ABCD, funcId := some 0xFFFFFFFF }
+      = .ok h ∧
+    (h.mode = .nf29 ∨ h.mode = .m29) ∧ h.ta = some 1 ∧ h.sa = some 2 ∧
+    (∀ t : Tat, (if t = .physical then h.physId else h.funcId) % 65536 = 0) :=
+  ⟨_, rfl, .inr rfl, rfl, rfl, by intro t; cases t <;> decide⟩
+/-- the constructed-object form (hypotheses of `p_get_{tx,rx}_arbitration_id_agrees`) -/
+example : ∃ h, mkAddress { mode := some .nf29, ta := .int 0x55, sa := .int 0xAA } = .ok h ∧ h.rxOnly = false ∧ h.txOnly = false :=
+  ⟨_, rfl, rfl, rfl⟩
+
+#print axioms is_for_me_normal_agrees
+#print axioms is_for_me_extended_agrees
+#print axioms is_for_me_normal_fixed_agrees
+#print axioms is_for_me_mixed_11bits_agrees
+#print axioms is_for_me_mixed_29bits_agrees
+#print axioms p_get_tx_arbitration_id_plain_agrees
+#print axioms p_get_rx_arbitration_id_plain_agrees
+#print axioms p_get_tx_arbitration_id_fixed_agrees
+#print axioms p_get_rx_arbitration_id_fixed_agrees
+#print axioms p_get_tx_arbitration_id_agrees
+#print axioms p_get_rx_arbitration_id_agrees
+#print axioms get_tx_extension_byte_agrees
+#print axioms get_rx_extension_byte_agrees
+#print axioms p_requires_extension_byte_agrees
+#print axioms is_partial_address_agrees
+#print axioms get_tx_arbitration_id_agrees
+#print axioms get_rx_arbitration_id_agrees
+#print axioms isForMe_agrees
+
 end Isotp.PyAgree
